@@ -670,12 +670,15 @@ def namings_for(case, k, rng):
     out[0].injected = None
     # ordinary but not bare identifiers: operators, digits, keywords, spaces (quoted names must still work)
     odd = ["a-b", "2", "group", "select", "my col", "x.y", "Order", "a+b", "1st"]
-    cm2 = {c: "u_" + c for c in allcols}
-    for c, o in zip(rng.sample(allcols, min(2, len(allcols))), rng.sample(odd, 2)):
-        cm2[c] = o
-    nm2 = relcase.Naming(cols=cm2, tabs={t: "tab_" + t for t in tabs})
-    nm2.injected = None
-    out.append(nm2)
+    # ... only for columns that never occur inside expression TEXT (there a name has to be an identifier)
+    free = [c for c in allcols if c not in _text_cols(case["prog"])]
+    if free:
+        cm2 = {c: "u_" + c for c in allcols}
+        for c, o in zip(rng.sample(free, min(2, len(free))), rng.sample(odd, 2)):
+            cm2[c] = o
+        nm2 = relcase.Naming(cols=cm2, tabs={t: "tab_" + t for t in tabs})
+        nm2.injected = None
+        out.append(nm2)
     for _ in range(k):
         cm = {c: "u_" + c for c in allcols}
         tm = {t: "tab_" + t for t in tabs}
@@ -698,6 +701,30 @@ def namings_for(case, k, rng):
         nm.injected = inj
         out.append(nm)
     return out
+
+
+def _expr_cols(e, acc):
+    if isinstance(e, list):
+        if len(e) == 2 and e[0] == "c":
+            acc.add(e[1])
+        for x in e:
+            _expr_cols(x, acc)
+
+
+def _text_cols(prog):
+    """columns that are written inside expression text by the harness (extend / select_rows expressions, aggregate sources)"""
+    acc = set()
+    for st in prog:
+        if st[0] == "extend":
+            for a in st[1]:
+                _expr_cols(a[1], acc)
+        elif st[0] == "select_rows":
+            _expr_cols(st[1], acc)
+        elif st[0] in ("wextend", "project"):
+            for a in st[1]:
+                if a[2] != "":
+                    acc.add(a[2])
+    return acc
 
 
 def _step_cols(prog):
